@@ -247,7 +247,7 @@ def run(res, tier):
         v["interpreter_flags"] = ["-OO"]
     r["outcomes"] = ["-OO:" + o for o in r["outcomes"]]
     res.merge_worker(r)
-    vs = list(ew.small_vectors(3 if tier == "quick" else 4)) + ew.families() + [["1"] * n for n in range(1, 65)] + extreme_vectors()
+    vs = list(ew.small_vectors(3 if tier == "quick" else 5)) + ew.families() + [["1"] * n for n in range(1, 65)] + extreme_vectors()
     units = [(v, kind) for v in vs for kind in (("list", "tuple") if len(v) <= 3 or len(v) in (8, 64) else ("list",))]
     for w in pmap(_work, permuted(units, "c16"), chunk=16):
         res.merge_worker(w)
